@@ -29,8 +29,8 @@ EXPLANATION = (
 RULE_TEXT = 'one obligation per raise statement, per partial-operation site (split-unpack, min/max, format, local read, optional-name subscript, string index, numeric conversion, lookup table)'
 ASSUMPTIONS = ['totality over all strings is not decided: AttributeError/TypeError in general, recursion depth, and errors inside pyparsing are outside the rules',
                'call resolution is name-based where receiver types are unknown (over-approximates the closure)']
-ENGINES = ['pyindex', 'paths', 'grammar']
-TECHNIQUE = 'static analysis (ast): exception-class audit over the call-graph closure; path-sensitive partial-operation rules (dominating guards, definite assignment, taint of format templates); grammar-derived token charsets for conversions'
+ENGINES = ['pyindex', 'paths', 'grammar', 'flows', 'peval']
+TECHNIQUE = 'static analysis (ast): exception-class audit over the call-graph closure; path-sensitive partial-operation rules (dominating guards, definite assignment, taint of format templates); grammar-derived token charsets for conversions; helper preconditions checked per call site against the token class of the attribute passed; lookup tables indexed by the reference kind evaluated per kind'
 
 EXC_MOD = 'pydbml.exceptions'
 # (function, exception class) -> reason why this raise is not an internal error of parsing/rendering
